@@ -160,11 +160,16 @@ class VServer(asyncio.AbstractServer):
         self.path = path
         self.closed = False
         self.accepted = 0
+        self._close_waiters = []
 
     def close(self):
         if self.closed:
             return
         self.closed = True
+        for fut in self._close_waiters:
+            if not fut.done():
+                fut.set_result(None)
+        self._close_waiters = []
         for a in self.addrs:
             if self.loop.listeners.get(a) is self:
                 del self.loop.listeners[a]
@@ -172,6 +177,12 @@ class VServer(asyncio.AbstractServer):
             self.sock.close()
 
     async def wait_closed(self):
+        # like asyncio.Server (3.12.1+): blocks until close() was called
+        if self.closed:
+            return None
+        fut = self.loop.create_future()
+        self._close_waiters.append(fut)
+        await fut
         return None
 
     def is_serving(self):
